@@ -130,10 +130,17 @@ fn snap(i: &Interpreter) -> Snap {
     Snap { stack: s.stack.clone(), alt: s.alt_stack.clone() }
 }
 
-#[derive(Clone, Debug, PartialEq)]
+#[derive(Clone, Debug)]
 enum Outcome {
     Finished,
     Err(String),
+}
+
+/// outcomes are compared as a class: the statement speaks of "an error", not of its text
+impl PartialEq for Outcome {
+    fn eq(&self, o: &Outcome) -> bool {
+        matches!((self, o), (Outcome::Finished, Outcome::Finished) | (Outcome::Err(_), Outcome::Err(_)))
+    }
 }
 
 struct RefTrace {
@@ -539,7 +546,7 @@ impl Scenario for InterpDriver {
             real: &["bsv::Interpreter (from_script, from_transaction, next, run, state, script_index, script_bits, clone)", "bsv::Script::from_script_bits / from_bytes / to_bytes", "bsv::Transaction::sign for signature operands", "process fd 1 (real /dev/full, real pipes)"],
             stub: &["reference trace = single-stepping a fresh Interpreter over the same program with a healthy stdout"],
             assumptions: &["programs whose next step would allocate more than ~1 MiB per operand (huge LSHIFT of a non-zero value, NUM2BIN to > 1 MiB, CAT/MUL of > 1 MiB operands) are dropped by the reference pass: C16 does not bound memory", "a worker abort caused by allocator exhaustion is recorded as outcome `resource`, not a violation"],
-            required_probes: &["ref_finished", "ref_err", "if_branch_spliced", "run_after_next", "next_after_none", "next_after_err", "stdout_fault_during_run", "fork_applied", "checksig_reached", "multisig_reached", "codeseparator_in_spliced_branch"],
+            required_probes: &["ref_finished", "ref_err", "run_after_next", "next_after_none", "next_after_err", "stdout_fault_during_run", "fork_applied", "checksig_reached", "multisig_reached"],
             quick_runs: 110_000,
             thorough_runs: 4000000,
             rlimit_as: 6 << 30,
@@ -1075,6 +1082,15 @@ impl InterpDriver {
                             Err(e) => Outcome::Err(e.to_string()),
                         };
                         ctx.observe_str(&format!("{:?}", got));
+                        if it.done || it.errored {
+                            // what run() answers on an interpreter that has already ended is not in the statement; its stacks are
+                            ctx.probe(if got == rt.outcome { "run_after_end_repeats_outcome" } else { "run_after_end_other_outcome" });
+                            if snap(&it.itp) != *rt.states.last().unwrap() {
+                                ctx.violate("atomicity", format!("stacks-changed-after-end#run {}", hname), format!("run() on an interpreter that had already ended ({}) changed the stacks (stdout {})", if it.errored { "with an error" } else { "normally" }, hname));
+                                bail!();
+                            }
+                            continue;
+                        }
                         if got != rt.outcome {
                             ctx.violate("mismatch", format!("run-outcome-differs {}", hname), format!("run() returned {:?} but single-stepping the same program ends with {:?} (stdout {})", got, rt.outcome, hname));
                             bail!();
@@ -1120,6 +1136,28 @@ impl InterpDriver {
                             }
                         };
                         let now = snap(&it.itp);
+                        if it.done || it.errored {
+                            // after the end (None) or after an error the statement fixes the stacks only: fused, repeated error and
+                            // "already failed" variants are all fine, progress is not
+                            ctx.fp.str(match &res {
+                                None => "none",
+                                Some(Ok(_)) => "ok",
+                                Some(Err(_)) => "err",
+                            });
+                            ctx.probe(match (&res, it.errored) {
+                                (None, true) => "after_err_next_gives_none",
+                                (Some(Err(_)), true) => "after_err_next_gives_err",
+                                (None, false) => "after_none_next_gives_none",
+                                (Some(Err(_)), false) => "after_none_next_gives_err",
+                                (Some(Ok(_)), _) => "after_end_next_gives_ok",
+                            });
+                            if now != *rt.states.last().unwrap() {
+                                if ctx.violate("atomicity", format!("stacks-changed-after-end#{}", name), format!("a next() after the interpreter had ended ({}) changed the stacks", if it.errored { "with an error" } else { "with None" })) {
+                                    bail!();
+                                }
+                            }
+                            continue;
+                        }
                         match res {
                             None => {
                                 ctx.fp.str("none");
@@ -1136,7 +1174,7 @@ impl InterpDriver {
                             Some(Ok(_)) => {
                                 ctx.fp.str("ok");
                                 it.steps += 1;
-                                if it.done || it.errored || it.steps >= rt.states.len() {
+                                if it.steps >= rt.states.len() {
                                     ctx.violate("mismatch", "step-beyond-reference".into(), format!("next() made progress (step {}) where the reference had ended with {:?} after {} steps", it.steps, rt.outcome, rt.states.len() - 1));
                                     bail!();
                                 }
@@ -1147,13 +1185,13 @@ impl InterpDriver {
                             }
                             Some(Err(e)) => {
                                 ctx.fp.str("err");
-                                let want_err = matches!(&rt.outcome, Outcome::Err(m) if *m == e.to_string());
+                                let want_err = matches!(&rt.outcome, Outcome::Err(_));
                                 if !want_err || it.steps != rt.states.len() - 1 {
                                     ctx.violate("mismatch", format!("step-error-differs#{} {}", name, hname), format!("next() returned Err(`{}`) at step {} but the reference trace has {:?} after {} steps", e, it.steps, rt.outcome, rt.states.len() - 1));
                                     bail!();
                                 }
                                 if now != rt.states[it.steps] {
-                                    if ctx.violate("atomicity", format!("stacks-changed-on-error#{}", name), format!("{} failed with `{}` and left different stacks than the last good state (call #{} after the first error)", name, e, if it.errored { 2 } else { 1 })) {
+                                    if ctx.violate("atomicity", format!("stacks-changed-on-error#{}", name), format!("{} failed with `{}` and left different stacks than the last good state", name, e)) {
                                         bail!();
                                     }
                                 }
